@@ -29,6 +29,7 @@ from . import register
 
 SRC = "nipy/algorithms/registration/affine.py"
 SRC_CHAIN = "nipy/algorithms/registration/chain_transform.py"
+SRC_TRANSFORM = "nipy/algorithms/registration/transform.py"
 
 
 class Unsupported(Exception):
@@ -556,6 +557,39 @@ def chain_apply(fn):
     return cex(body[0].value)
 
 
+# ------------------------------------------------------------------ generic Transform
+def generic_compose(cls):
+    """class Transform: apply must be `return self.func(pts)`; compose must return a NEW Transform wrapping a
+    lambda whose body is built from self.apply / other.apply applied to the lambda's argument (no state)."""
+    meths = {s.name: s for s in cls.body if isinstance(s, ast.FunctionDef)}
+    ap = _strip_doc(meths["apply"].body)
+    if not (len(ap) == 1 and isinstance(ap[0], ast.Return) and isinstance(ap[0].value, ast.Call)
+            and _attr(ap[0].value.func, "self", "func") and len(ap[0].value.args) == 1 and _name(ap[0].value.args[0], "pts")):
+        raise Unsupported("Transform.apply shape")
+    co = meths["compose"]
+    if [a.arg for a in co.args.args] != ["self", "other"]:
+        raise Unsupported("Transform.compose signature")
+    body = _strip_doc(co.body)
+    if not (len(body) == 1 and isinstance(body[0], ast.Return) and _call(body[0].value, "Transform", 1)
+            and isinstance(body[0].value.args[0], ast.Lambda)):
+        raise Unsupported("Transform.compose: expected `return Transform(lambda pts: ...)`")
+    lam = body[0].value.args[0]
+    if len(lam.args.args) != 1 or lam.args.defaults or lam.args.vararg or lam.args.kwarg:
+        raise Unsupported("Transform.compose lambda signature")
+    arg = lam.args.args[0].arg
+
+    def gex(n):
+        if _name(n, arg):
+            return "GPts"
+        if isinstance(n, ast.Call) and len(n.args) == 1 and not n.keywords:
+            if _attr(n.func, "self", "apply"):
+                return "(GSelf %s)" % gex(n.args[0])
+            if _attr(n.func, "other", "apply"):
+                return "(GOther %s)" % gex(n.args[0])
+        raise Unsupported("Transform.compose lambda body: " + ast.dump(n))
+    return gex(lam.body)
+
+
 def _nl(xs):
     return "[" + "; ".join(str(int(x)) for x in xs) + "]"
 
@@ -633,6 +667,13 @@ def translate(repo):
                     chain = chain_apply(s)
     if chain is None:
         raise Unsupported("ChainTransform.apply not found")
+    ttree = ast.parse((repo / SRC_TRANSFORM).read_text())
+    gen = None
+    for n in ttree.body:
+        if isinstance(n, ast.ClassDef) and n.name == "Transform":
+            gen = generic_compose(n)
+    if gen is None:
+        raise Unsupported("class Transform not found")
 
     o = ["(* GENERATED from %s and %s by harness/translate/affineclasses.py - do not edit *)" % (SRC, SRC_CHAIN),
          "From Coq Require Import String List.", "From NV.Lib Require Import C08Base.", "Import ListNotations.",
@@ -669,6 +710,8 @@ def translate(repo):
     o.append("Definition src_negate_when_direct_is : bool := %s.\n" % ("true" if neg_when else "false"))
     o.append("(* ChainTransform.apply *)")
     o.append("Definition src_chain : cexpr := %s." % chain)
+    o.append("(* Transform.compose: lambda body (%s) *)" % SRC_TRANSFORM)
+    o.append("Definition src_generic_compose : gexpr := %s." % gen)
     meta = {"source": [SRC, SRC_CHAIN], "classes": {r[0]: r[1] for r in rows},
             "compose_chain": branches, "compose_default": default, "from_matrix44_owner": fx_owner}
     return "\n".join(o) + "\n", meta
